@@ -37,10 +37,13 @@ RULE = ("cases drawn from one PRNG (VERIF_SEED). view: a random tree (depth <= 3
         "props), Stylesheet, Script / Style (attributes and raw-text children), Html, Body, and eight components with "
         "hostile literal props — every prop in each representation of Oco / TextProp, also below Suspend boundaries "
         "that resolve before or after the first chunk, streamed in order / out of order through inject_meta_context; "
+        "svg: subtrees of tachys::svg elements (svg g style script title text a desc) anywhere in these views, with "
+        "hostile text children and attributes - inside <svg> style / script / title are ordinary elements to the HTML "
+        "parser (foreign content); "
         "keyed: keyed lists (String key, structured key, leptos <For/>) rendered with branch markers; "
         "island: tachys' Island with serde_json-serialised props holding the string and IslandChildren; "
-        "static: fifteen fixed view! invocations whose hostile strings are literals (top-level builder path and nested, "
-        "macro-inlined inert path, unquoted text); "
+        "static: eighteen fixed view! invocations whose hostile strings are literals (top-level builder path and nested, "
+        "macro-inlined inert path, unquoted text, literal text below <svg> at the root and inside inlined subtrees); "
         "static-grid: every syntactic form of a text-like child the macro accepts (bare literal, {\"lit\"}, {{\"lit\"}}, "
         "{(\"lit\")}, {'c'}, {1}, const, concat!, String / to_string expressions, closure, Option, adjacent mixtures: 23 "
         "forms) in each of 12 positions (root of the view!, nested static subtrees, next to a dynamic attribute / "
@@ -48,9 +51,9 @@ RULE = ("cases drawn from one PRNG (VERIF_SEED). view: a random tree (depth <= 3
         "of a literal attribute value (attr=\"lit\", {\"lit\"}, (\"lit\"), const, concat!, String expression; title / "
         "class / style / id / data-*: 15 forms) in 7 positions (root, nested static, next to a dynamic child / "
         "attribute, on input and textarea), all 105 combinations; "
-        "template: twenty view! templates (text child, attribute, class, style, href, input value, Option child, "
+        "template: twenty-three view! templates (text child, attribute, class, style, href, input value, Option child, "
         "list item, textarea, class: toggle, custom element, title, closure child, scope class `class = expr,`, style:prop, "
-        "style / class (name, value) tuples and class arrays, attr: on a component, spread {..attrs}, fragment root) "
+        "style / class (name, value) tuples and class arrays, attr: on a component, spread {..attrs}, fragment root, dynamic children of svg style / script / title / text / a / desc) "
         "with the generated string in the dynamic slot. Strings come from an adversarial alphabet (< > & \" ' / = ` NUL, <!--, -->, ]]>, </script, "
         "</title, </textarea, </style, <script, <body, </head>, <!--HEAD-->, character-reference look-alikes such as "
         "&lt; &amp; &#60; &notit;, CR/LF, Unicode whitespace, astral characters) plus random scalar values. "
@@ -86,6 +89,10 @@ ASSUMPTIONS = [
     "scripts the framework itself adds to the body (out-of-order replacement) are not part of the view, but the "
     "number and place of all elements must not depend on the data (comparison with the neutral rendering); at most "
     "one <Html/> and one <Body/> per document; the nonce of out-of-order scripts is server-generated, not data",
+    "svg subtrees: asynchronous children below <svg> are streamed in order only (an out-of-order chunk arrives in a "
+    "<template>, whose content is parsed as HTML, so svg elements delivered that way lose their namespace whatever the "
+    "data); text leaves there are non-empty and compared with adjacent texts merged (placeholders and <!> separators "
+    "are C05 / C07's concern); element names are compared in lower case (viewBox -> viewbox)",
     "branch markers (islands router): views with textarea / title / script / style are streamed without them (a "
     "marker comment of a type-erased child is text there, whatever the data)",
 ]
@@ -262,7 +269,7 @@ def gen_view(rng, depth=0, tags=None, deep_tags=None):
                 kids = [[0, b("x")]] + kids
     else:
         for _ in range(rng.choice([0, 1, 1, 2, 2, 3, 4])):
-            kids.append(gen_view(rng, depth + 1, deep_tags=deep_tags))
+            kids.append(gen_svg(rng) if deep_tags is None and rng.random() < 0.06 else gen_view(rng, depth + 1, deep_tags=deep_tags))
         if not kids and rng.random() < 0.4:
             attrs = gen_attrs(rng, tag, inner=True)
     v = [2, tag, attrs, kids]
@@ -277,9 +284,35 @@ def gen_view(rng, depth=0, tags=None, deep_tags=None):
     return v
 
 
+# ---- svg subtrees: (9 svgtag attrs kids); inside <svg> every element is an ordinary element (foreign content)
+SVG_TAGS = ["svg", "g", "style", "script", "title", "text", "a", "desc"]
+SVG_TEXT_ONLY = {2, 3, 4, 5, 7}        # their children are text-like leaves
+SVG_HTML_TEXT = {4, 7}                 # title, desc: HTML integration points (their text follows HTML rules)
+
+
+def gen_svg(rng, depth=0, root=True):
+    tag = 0 if root else rng.choice([1, 2, 2, 3, 3, 4, 5, 5, 6, 7])
+    attrs = [a for a in gen_attrs(rng, 0) if a[0] != 8]
+    kids = []
+    if tag in SVG_TEXT_ONLY:
+        for _ in range(rng.choice([0, 1, 1, 1, 2, 3])):
+            k = rng.choice([[0, b(text(rng)), ty(rng, N_TEXT_TYPES)], [0, b(text(rng)), ty(rng, N_TEXT_TYPES)], gen_leaf(rng)])
+            if k[0] != 4 and not (k[0] == 0 and not k[1]):
+                kids.append(k)
+    else:
+        for _ in range(rng.choice([1, 1, 2, 3, 4]) if root else rng.choice([0, 1, 2, 3])):
+            if depth < 2 and rng.random() < 0.85:
+                kids.append(gen_svg(rng, depth + 1, False))
+            else:
+                k = gen_leaf(rng)
+                if k[0] != 4 and not (k[0] == 0 and not k[1]):
+                    kids.append(k)
+    return [9, tag, attrs, kids]
+
+
 def oracle_only(v):
     """constructs the Coq model does not have: primitives other than char / i64, inner_html, outer attributes"""
-    if v[0] in (7, 8):
+    if v[0] in (7, 8, 9):
         return True
     if v[0] == 5:
         return oracle_only(v[2])
@@ -289,8 +322,8 @@ def oracle_only(v):
 
 
 def gen_top(rng):
-    v = gen_view(rng)
-    if v[0] not in (2, 8):
+    v = gen_svg(rng) if rng.random() < 0.04 else gen_view(rng)
+    if v[0] not in (2, 8, 9):
         v = [2, rng.choice([0, 1, 2]), gen_attrs(rng, 0), [v] + [gen_view(rng, 1) for _ in range(rng.randint(0, 3))]]
     return v
 
@@ -299,6 +332,15 @@ def add_suspends(rng, v, counter, text_only=False):
     """wrap random children (any kind; inside text-only elements: the text-like ones) in Suspend"""
     if v[0] == 8:
         return [8, v[1], add_suspends(rng, v[2], counter)]
+    if v[0] == 9:
+        kids = []
+        for k in v[3]:
+            k = add_suspends(rng, k, counter)
+            if counter[0] < 6 and rng.random() < 0.3:
+                k = [5, counter[0], k]
+                counter[0] += 1
+            kids.append(k)
+        return [9, v[1], v[2], kids]
     if v[0] != 2:
         return v
     kids = []
@@ -462,8 +504,8 @@ def gen_meta_doc(rng):
     return [6, mode, v, sched]
 
 
-N_STATIC = 15
-N_TEMPLATES = 20
+N_STATIC = 18
+N_TEMPLATES = 23
 
 
 def gen_keyed(rng):
@@ -743,6 +785,8 @@ def exp_nodes(kids):
             out.append(exp_el(k))
         elif k[0] in (4, 6):
             continue
+        elif k[0] == 9:
+            out.append(exp_svg(k))
         elif k[0] == 8:
             # the outer attributes go to the element; a text takes none
             inner = exp_nodes([k[2]])
@@ -752,6 +796,22 @@ def exp_nodes(kids):
             t = norm_body(t) if t else " "
             out.append(("text", t))
     return out
+
+
+def exp_svg(v, html_text=False):
+    """an element in SVG content: its text is ordinary text (no raw-text / RCDATA element there); a NUL
+    becomes U+FFFD in foreign content and is dropped inside the HTML integration points title / desc"""
+    kids = []
+    for k in v[3]:
+        if k[0] == 9:
+            kids.append(exp_svg(k))
+        elif k[0] == 5:
+            kids += [exp_svg(k[2])] if k[2][0] == 9 else exp_svg([9, v[1], [], [k[2]]])[3]
+        elif k[0] != 4:
+            t = leaf_text(k)
+            t = (norm_body(t) if v[1] in SVG_HTML_TEXT else norm_attr(t)) if t else " "
+            kids.append(("text", t))
+    return ("el", SVG_TAGS[v[1]], exp_attrs(v[2]), kids)
 
 
 def exp_el(v):
@@ -846,6 +906,16 @@ STATIC_EXPECT = [
     # unquoted text: compared without white space (the macro sees tokens, not the spacing between them)
     [("el", "div", [], [("text", "a&b&amp;c")])],
     [("el", "div", [], [("el", "p", [], [("text", "a&b&amp;cq'r'd")]), ("el", "span", [], [("text", "&lt;b&gt;&#60;x")])])],
+    # literal text in svg subtrees (static 15: root; 16, 17: inside macro-inlined static subtrees)
+    [("el", "svg", [], [("el", "style", [], [("text", "a<b{}</style><c>&lt;")]), ("el", "script", [], [("text", "1<2&amp;")]),
+                        ("el", "title", [], [("text", "</title><b>")]), ("el", "text", [], [("text", "<tspan>&gt;")])])],
+    [("el", "section", [], [("el", "div", [("class", "w")], [("el", "svg", [], [
+        ("el", "style", [], [("text", "a<b{}</style><c>&lt;")]), ("el", "script", [], [("text", "1<2&amp;")]),
+        ("el", "title", [], [("text", "</title><b>")]), ("el", "text", [], [("text", "<tspan>&gt;")])])]),
+        ("el", "p", [], [("text", "x")])])],
+    [("el", "div", [], [("el", "p", [], [("el", "svg", [], [
+        ("el", "g", [], [("el", "style", [], [("text", "x</g><img src=x onerror=alert(1)>")])]),
+        ("el", "desc", [], [("text", "<![CDATA[<b>]]>")])])])])],
 ]
 STATIC_UNSPACED = (13, 14)
 
@@ -912,6 +982,17 @@ def template_expect(k, s):
         return [("el", "div", [("title", ta), ("data-k", ta)], [T("x")])]
     if k == 19:
         return [T("a<b"), T(tb), ("el", "p", [], [T("x")])]
+    # svg subtrees: style / script / text are foreign elements (NUL -> U+FFFD), title / desc HTML integration points
+    tf = norm_attr(s) if s else " "
+    if k == 20:
+        return [("el", "svg", [], [("el", "style", [], [T(tf)])])]
+    if k == 21:
+        return [("el", "div", [], [("el", "svg", [("viewbox", "0 0 1 1")],
+                [("el", "script", [], [T(tf)]), ("el", "title", [], [T(tb)]), ("el", "text", [("x", "1")], [T(tf)]),
+                 ("el", "style", [], [T("a{}"), T(tf)])])])]
+    if k == 22:
+        return [("el", "svg", [], [("el", "a", [("href", ta)], [("el", "text", [], [T(tf)])]), ("el", "desc", [], [T(tb)]),
+                                   ("el", "g", [("class", "c")], [("el", "text", [], [T("k")])])])]
     # k == 13: scope class; the top-level element goes through the builder (trimmed), the nested
     # ones are inlined by the macro (scope class, then the element's own class)
     return [("el", "div", [("class", norm_attr(rust_trim(" " + s)))],
@@ -952,7 +1033,7 @@ def rawtext_breakouts(v):
     if v[0] in (5, 8):
         return rawtext_breakouts(v[2])
     if v[0] != 2:
-        return out
+        return out                      # (nothing is raw text inside an svg subtree)
     if v[1] in RAW:
         raw = (raw_content(v[3]) or "").lower()
         tag = TAGS[v[1]]
@@ -1196,6 +1277,9 @@ def oracle(item, impl):
     got = canon(strip_comments(nodes))
     if op == 1:
         want = canon(exp_nodes([case[1]]))
+        if has_svg(case[1]):
+            # (the <!> between text siblings is C05 / C07's concern)
+            want, got = merge_texts(want), merge_texts(got)
     elif op == 2:
         want = canon(STATIC_EXPECT[case[1]])
         if case[1] in STATIC_UNSPACED:
@@ -1300,7 +1384,7 @@ def valid_case(item):
             return (ms is not None and len(case) == 4 and case[1] in (0, 1)
                     and not has_meta_in_text_only(case[2])
                     and sum(1 for m in ms if m[1] == 6) <= 1 and sum(1 for m in ms if m[1] == 7) <= 1
-                    and not has_tag(case[2], (7, 8, 9))
+                    and not has_tag(case[2], (7, 8, 9)) and not has_svg(case[2])
                     and not (case[1] == 1 and suspend_in_raw(case[2]))
                     and all(isinstance(k, int) and -1 <= k < 16 for k in case[3]))
         if op == 5:
@@ -1327,6 +1411,25 @@ def valid_view(v, in_text_only=False):
         return len(v) == 2 and -(2 ** 63) <= v[1] < 2 ** 63
     if k == 4:
         return len(v) == 1
+    if k == 9:
+        if len(v) != 4 or not isinstance(v[1], int) or not 0 <= v[1] < len(SVG_TAGS) or not isinstance(v[3], list):
+            return False
+        if (not in_text_only) != (v[1] == 0):
+            return False                # the root is <svg>, and only the root (in_text_only: "inside svg")
+        if not valid_view([2, 0, v[2], []]) or any(a[0] == 8 for a in v[2]):
+            return False
+        for c in v[3]:
+            inner = c[2] if c[0] == 5 else c
+            if c[0] == 5 and not (len(c) == 3 and isinstance(c[1], int) and 0 <= c[1] < 16):
+                return False
+            if inner[0] == 9:
+                if v[1] in SVG_TEXT_ONLY or not valid_view(inner, True):
+                    return False
+            elif inner[0] not in (0, 1, 3, 7) or not valid_view(inner):
+                return False
+            elif inner[0] == 0 and not inner[1]:
+                return False            # (the placeholder for an empty text is not this property's concern)
+        return True
     if k == 7:
         return (len(v) == 3 and isinstance(v[1], int) and 0 <= v[1] < N_PRIMS and isinstance(v[2], int)
                 and -(2 ** 62) <= v[2] < 2 ** 62
@@ -1440,6 +1543,11 @@ def _flat(v):
 def suspend_in_raw(v):
     if v[0] in (5, 8):
         return suspend_in_raw(v[2])
+    if v[0] == 9:
+        # an out-of-order chunk arrives in a <template>, whose content is parsed as HTML: svg elements
+        # delivered that way are HTML elements (script / style raw text again), whatever the data — asynchronous
+        # children of svg subtrees are streamed in order only
+        return any(k[0] == 5 or suspend_in_raw(k) for k in v[3])
     if v[0] != 2:
         return False
     if (v[1] in RAW or v[1] in RCDATA) and any(k[0] == 5 for k in v[3]):
@@ -1452,7 +1560,15 @@ def has_suspend(v):
         return True
     if v[0] == 8:
         return has_suspend(v[2])
-    return v[0] == 2 and any(has_suspend(k) for k in v[3])
+    return v[0] in (2, 9) and any(has_suspend(k) for k in v[3])
+
+
+def has_svg(v):
+    if v[0] == 9:
+        return True
+    if v[0] in (5, 8):
+        return has_svg(v[2])
+    return v[0] == 2 and any(has_svg(k) for k in v[3])
 
 
 def has_tag(v, tags):
@@ -1486,6 +1602,9 @@ def show_view(v):
         return str(v[1])
     if v[0] == 4:
         return "()"
+    if v[0] == 9:
+        d = show_view([2, 0, v[2], v[3]])
+        return "<svg::%s%s" % (SVG_TAGS[v[1]], d[len("<div"):])
     if v[0] == 7:
         return "prim#%d(%r)" % (v[1], prim_text(v[1], v[2]))
     if v[0] == 8:
@@ -1637,6 +1756,12 @@ def _count(v, pos, parent="ordinary"):
     if v[0] == 8:
         pos["attribute added from outside (add_any_attr)"] = pos.get("attribute added from outside (add_any_attr)", 0) + len(v[1])
         return _count(v[2], pos, parent)
+    if v[0] == 9:
+        for a in v[2]:
+            pos["attribute of an svg element"] = pos.get("attribute of an svg element", 0) + 1
+        for k in v[3]:
+            _count(k[2] if k[0] == 5 else k, pos, "svg " + SVG_TAGS[v[1]])
+        return
     names = {0: "text child", 1: "char child", 3: "number child", 7: "primitive child"}
     if v[0] in names:
         key = "%s in %s element" % (names[v[0]], parent)
